@@ -254,7 +254,8 @@ def eval_coq_cases(prop_id, prelude, check_fn, case_terms, shard=400, timeout=60
     """Writes shards `cases_k.v`, each evaluating `map check_fn cases` with
     vm_compute; check_fn must return a nat code per case.  Returns list of codes
     (None where Coq failed) and the error logs."""
-    d = os.path.join(WORK, prop_id)
+    # one work directory per run (two concurrent runs of the same property must not clobber each other's shards)
+    d = os.path.join(WORK, f"{prop_id}.{os.getpid()}")
     shutil.rmtree(d, ignore_errors=True)
     os.makedirs(d, exist_ok=True)
     shards = [case_terms[i:i + shard] for i in range(0, len(case_terms), shard)]
@@ -286,6 +287,8 @@ def eval_coq_cases(prop_id, prelude, check_fn, case_terms, shard=400, timeout=60
                 errors.append(f"shard {k}: expected {n} codes, parsed {len(got)}: {out[-500:]}")
             else:
                 codes += got
+    if not errors:
+        shutil.rmtree(d, ignore_errors=True)
     return codes, errors
 
 
